@@ -66,7 +66,9 @@ Dispatch ==       \* the transport thread of E.side takes the head of the peer's
   LET X == E.side  Y == Peer(X) IN
   /\ wire' = [wire EXCEPT ![Y] = IF @ = <<>> THEN @ ELSE Tail(@)]
   /\ tpc' = [tpc EXCEPT ![X] = IF E.t = "CLOSE" /\ ~E.dead THEN "close" ELSE "busy"]
-  /\ UNCHANGED <<thr, chan, tpend, eobs, robs>>
+  \* extended data of a type the library discards is disposed of on the application's behalf (cf. Deliver, FixCredit)
+  /\ consumed' = [consumed EXCEPT ![X] = IF E.t = "EXT" /\ E.code # 1 /\ ~E.dead THEN @ + E.n ELSE @]
+  /\ UNCHANGED <<thr, chan, tpend, eobs, leaked, closeSeen>>
 
 Done ==
   LET X == E.side IN
